@@ -148,7 +148,8 @@ def _run(case, cfg, w):
     cb_issued = {}         # tag -> dict(sid, host)
     outstanding = {}       # p -> list of (ns, id, tag) learned from rx
     stats = {'cross_host_ops': 0, 'cross_host_emits': 0,
-             'callbacks_crossed': 0, 'emit_raced_membership': 0}
+             'callbacks_crossed': 0, 'emit_raced_membership': 0,
+             'membership_ops_raced': 0}
 
     def drain():
         """Let every host consume everything published so far."""
@@ -173,6 +174,7 @@ def _run(case, cfg, w):
 
     import copy
     snaps = [copy.deepcopy(model.m)]   # snaps[k] = model after k ops
+    taint = [None]
     pending_mops = []                  # [op index, bus index] membership
     #                                    ops that may still be in flight
 
@@ -286,7 +288,8 @@ def _run(case, cfg, w):
                 vh = via
             w.settle(horizon=0.0)
             idx = n_log if len(bus.log) > n_log else None
-            lo = min([m[0] for m in pending_mops] + [snap_before])
+            lo = min([m[0] for m in pending_mops] + [snap_before] +
+                     ([taint[0]] if taint[0] is not None else []))
             emits[tag] = {'ns': ns, 'to': to, 'skip': skip, 'via': vh,
                           'expect': recips, 'eligible': set(recips),
                           'raced': False, 'index': idx, 'done': False,
@@ -322,6 +325,15 @@ def _run(case, cfg, w):
         else:
             w.settle(horizon=0.0)
         if k in ('enter', 'leave', 'close', 'disc', 'connect'):
+            if pending_mops and taint[0] is None:
+                # a membership change issued while another one is still in
+                # flight: the hosts may apply the two in either order (a
+                # locally applied close_room can overtake an enter_room that
+                # is still on the bus), so from here on the membership is
+                # only known up to the states passed through since the older
+                # one was issued
+                taint[0] = min(m[0] for m in pending_mops)
+                stats['membership_ops_raced'] += 1
             pending_mops.append([snap_before, n_log0
                                  if len(bus.log) > n_log0 else None])
         snaps.append(copy.deepcopy(model.m))
@@ -363,7 +375,8 @@ def _run(case, cfg, w):
             sets.append(frozenset(mm.recipients(e['ns'], e['to'],
                                                 e['skip'])))
         e['eligible'] = set().union(*sets) if sets else set(e['expect'])
-        e['raced'] = len(set(sets)) > 1
+        e['raced'] = len(set(sets)) > 1 or (
+            taint[0] is not None and e['lo'] <= taint[0])
         if e['raced']:
             stats['emit_raced_membership'] += 1
     _check_emits(v, w, sc, emits, exact=immediate, final=True)
